@@ -8,3 +8,19 @@ BUILT['C01'] = (
     "unit norm to 1e-9 on tens of thousands (quick) to millions (thorough) of executions over the special-value pools; "
     "exploration is the right level because the property quantifies over unbounded real inputs",
     NOTE, "DESIGN.md 4 C01")
+BUILT['C02'] = (
+    "law monitor (both sides of each group law computed by the real operators on the same operands) + reference-model "
+    "monitor comparing every operator application in random expression trees with longdouble group arithmetic",
+    "associativity, identity, inverse, anti-homomorphism, division, powers |n|<=8, structured inverse and sequence "
+    "division/power are evaluated on operand triples over the whole group (angles at and 1e-12 from 0 and pi, translations "
+    "1e-6..1e6) in SO2/SE2/SO3/SE3/UnitQuaternion/Twist2/Twist3, and every * / inv ** inside random trees (depth<=5) is "
+    "compared with an independent longdouble evaluation; 1e-9 relative to max(1,|t|), 1e-7 for twists (as motions)",
+    NOTE, "DESIGN.md 4 C02")
+BUILT['C03'] = (
+    "runtime contracts on trexp/trexp2/trlog/trlog2 (rebound on every binding, so internal calls from Exp/log/Twist are "
+    "judged too) against a reference exponential; class wrappers judged at their boundary; line-reach requirements",
+    "every in-domain call of the four base functions is compared with the reference exponential (closed form in longdouble, "
+    "re-validated against mpmath at 50 digits inside each run); logarithms must be finite, real, of algebra form, |w|<=pi "
+    "and satisfy exp(L)=T, log(exp S)=S for |w|<=pi-1e-6; rotation magnitudes sweep 1e-12..pi log-uniformly from both ends; "
+    "the identity, pure-translation, near-half-turn and general branches of trlog are required line-reach targets",
+    NOTE, "DESIGN.md 4 C03")
